@@ -130,16 +130,21 @@ def std_assignment(free):
     return {n: pattern(i, k) for i, n in enumerate(free)}, 1 << k
 
 
-def simulate(c, free_tables, W, x_tables=None):
+def simulate(c, free_tables, W, x_tables=None, force=None):
     """Evaluate an acyclic circuit.
 
     free_tables: dict node -> table for every free node (see free_nodes).
     x_tables: optional dict giving a table for nodes of type 'x'.
+    force: optional dict node -> table overriding the value of those nodes
+    (their fan-out sees the forced value) -- used for 'flip node n'.
     Returns dict node -> table for all nodes.
     """
     full = (1 << W) - 1
     val = {}
     for n in topo(c):
+        if force is not None and n in force:
+            val[n] = force[n] & full
+            continue
         t = gtype(c, n)
         ps = c.graph.pred[n]
         if t in FREE_TYPES:
